@@ -5,6 +5,7 @@ import Driver.Hash
 import Driver.Lex
 import Driver.Format
 import Driver.Sort
+import Driver.Exclude
 open Lean
 
 def dispatch (j : Json) : Json :=
@@ -16,6 +17,8 @@ def dispatch (j : Json) : Json :=
   | "lex.scan" => Driver.handleLexScan j
   | "fmt" => Driver.handleFmt j
   | "sort.plan" => Driver.handleSortPlan j
+  | "exclude" => Driver.handleExclude j
+  | "glob" => Driver.handleGlob j
   | "h1" => Json.mkObj [("h", Atlas.Base.h1 (Driver.unhex (Driver.str j "hex")))]
   | op => Json.mkObj [("err", s!"unknown-op:{op}")]
 
